@@ -58,6 +58,7 @@ type tblT struct {
 	Rot  int    `json:"rot"`           // row i carries the id ((i+Rot) mod N)+1 ...
 	Desc bool   `json:"desc"`          // ... or N-((i+Rot) mod N)
 	Fmt  string `json:"fmt,omitempty"` // file tables: "" (t.csv) | tsv | json | jsonl | ltsv
+	Raw  string `json:"raw,omitempty"` // CSV file tables: "" canonical text | quoted (some cells enclosed) | crlf | noeol (no final line break): text a rewrite by COMMIT does not reproduce
 }
 
 type stmtT struct {
@@ -83,6 +84,8 @@ type failT struct {
 	Pre     []stmtT  `json:"pre,omitempty"`     // statements run after the prefix: variables / cursors holding values read from the tables
 	Aliased bool     `json:"aliased,omitempty"` // tables are named through aliases where the statement shape has a FROM clause
 	Shared  int      `json:"shared,omitempty"`  // number of values of the statement that are read from table cells (subquery, variable, cursor)
+	How     string   `json:"how,omitempty"`     // row-bound failures: the expression that fails at row K (div0, case_div0, subquery_*, function_*)
+	ByFile  bool     `json:"by_file,omitempty"` // the statement names its target by the file name (`t1.csv`) instead of the table name
 }
 
 type caseT struct {
@@ -161,6 +164,8 @@ func genTable(t *rapid.T, name string, weights []int) *gTbl {
 		g.Fmt = fw.PickU(t, name+"_fmt", []string{"", "", "", "tsv", "json", "json", "jsonl", "ltsv"})
 		if g.Fmt != "" {
 			g.format = strings.ToUpper(g.Fmt)
+		} else {
+			g.Raw = fw.PickU(t, name+"_raw", []string{"", "", "", "quoted", "quoted", "noeol", "crlf"})
 		}
 	}
 	return g
@@ -191,9 +196,17 @@ func (g *gTbl) rowVals(id int, tag string) []string {
 	return vs
 }
 
-func genPrefix(t *rapid.T, step int, g *gTbl) stmtT {
+func genPrefix(t *rapid.T, step int, g *gTbl) stmtT { return genPrefixOf(t, step, g, true) }
+
+// genPrefixOf renders a valid data-changing statement on g and applies it to the generator's idea of
+// the table; withSet: ALTER TABLE ... SET <attribute> may be drawn.
+func genPrefixOf(t *rapid.T, step int, g *gTbl, withSet bool) stmtT {
 	st := stmtT{Refs: []string{g.Name}}
-	kind := []string{"insert", "update", "delete", "replace", "add", "drop", "set_attr"}[fw.Weighted(t, "prefix_kind", []int{25, 25, 15, 10, 15, 10, 14})]
+	ws := []int{25, 25, 15, 10, 15, 10, 14}
+	if !withSet {
+		ws[6] = 0
+	}
+	kind := []string{"insert", "update", "delete", "replace", "add", "drop", "set_attr"}[fw.Weighted(t, "prefix_kind", ws)]
 	if kind == "set_attr" && !g.fileBacked() {
 		kind = "update"
 	}
@@ -355,15 +368,23 @@ func pickRow(t *rapid.T, ids []int) int {
 
 func fileOf(g *gTbl) string { return fileName(g.tblT) }
 
-// source renders a table as a FROM item of a sub-select.
-func source(t *rapid.T, g *gTbl, aliased bool) string {
+// srcT is a table as the FROM item of a sub-select: an optional WITH clause, the FROM item and the
+// name under which its columns are qualified.
+type srcT struct{ with, from, qual string }
+
+// source renders a table as a FROM item of a sub-select: the table itself (aliased or not), a
+// FROM-subquery over it, or an inline table of a WITH clause over it.
+func source(t *rapid.T, g *gTbl, aliased bool) srcT {
 	if !avoidFromSubqueryPoisonsFileInfo && fw.Pct(t, "from_subquery", 30) {
-		return fmt.Sprintf("(SELECT * FROM %s%s", g.Name, fromSubqueryMark)
+		return srcT{"", fmt.Sprintf("(SELECT * FROM %s%s", g.Name, fromSubqueryMark), "fsq"}
+	}
+	if fw.Pct(t, "from_with", 20) {
+		return srcT{fmt.Sprintf("WITH wc AS (SELECT * FROM %s) ", g.Name), "wc", "wc"}
 	}
 	if aliased {
-		return g.Name + " x"
+		return srcT{"", g.Name + " x", "x"}
 	}
-	return g.Name
+	return srcT{"", g.Name, g.Name}
 }
 
 const (
@@ -382,6 +403,10 @@ const (
 	errAttrName       = 13002
 	errAttrNotAllowed = 13003
 	errAttrValue      = 13004
+	errTooManyRecords = 10601
+	errUserTriggered  = 90650
+	errFileNotExist   = 90181
+	errFieldLength    = 13301
 )
 
 var failKinds = []struct {
@@ -414,6 +439,10 @@ var failKinds = []struct {
 	{"create_bad", 5},
 	{"create_exists", 3},
 	{"cancel", 22},
+	{"missing_table", 5},
+	{"join_on_div0", 6},
+	{"self_join_div0", 6},
+	{"create_if_not_exists", 4},
 }
 
 // sharer hands out expressions whose value is the very object a table cell holds: scalar
@@ -426,6 +455,7 @@ type sharer struct {
 	pre  []stmtT
 	refs map[string]bool
 	n    int
+	base int // first number of the names (several failing statements of one transaction declare their own)
 }
 
 func (sh *sharer) expr() string {
@@ -438,16 +468,16 @@ func (sh *sharer) expr() string {
 	refs := []string{g.Name}
 	switch fw.Weighted(sh.t, "shared_how", []int{40, 20, 15, 25}) {
 	case 1:
-		name := fmt.Sprintf("@s%d", sh.n)
+		name := fmt.Sprintf("@s%d", sh.base+sh.n)
 		sh.pre = append(sh.pre, stmtT{Kind: "var", SQL: fmt.Sprintf("VAR %s := %s;", name, sub), Refs: refs})
 		return name
 	case 2:
-		name := fmt.Sprintf("@s%d", sh.n)
+		name := fmt.Sprintf("@s%d", sh.base+sh.n)
 		sh.pre = append(sh.pre, stmtT{Kind: "select_into", SQL: fmt.Sprintf("VAR %s; SELECT %s INTO %s FROM %s WHERE id = %d;", name, col, name, g.Name, id), Refs: refs})
 		return name
 	case 3:
-		cur := fmt.Sprintf("c%d", sh.n)
-		a, b := fmt.Sprintf("@c%da", sh.n), fmt.Sprintf("@c%db", sh.n)
+		cur := fmt.Sprintf("c%d", sh.base+sh.n)
+		a, b := fmt.Sprintf("@c%da", sh.base+sh.n), fmt.Sprintf("@c%db", sh.base+sh.n)
 		sh.pre = append(sh.pre, stmtT{Kind: "cursor", SQL: fmt.Sprintf("DECLARE %s CURSOR FOR SELECT v, w FROM %s WHERE id >= %d; OPEN %s; VAR %s, %s; FETCH %s INTO %s, %s;", cur, g.Name, id, cur, a, b, cur, a, b), Refs: refs})
 		if col == "w" {
 			return b
@@ -470,14 +500,25 @@ func (sh *sharer) refList() []string {
 // rowBound: the kinds whose failure is bound to a row K (or to a poll count): the ones a case can enumerate.
 var rowBound = map[string]bool{"update_set_div0": true, "update_where_div0": true, "update_multi_ambiguous": true, "update_multi_div0": true,
 	"delete_div0": true, "delete_multi_div0": true, "insert_select_div0": true, "replace_select_div0": true, "alter_add_div0": true,
-	"create_as_div0": true, "cancel": true}
+	"create_as_div0": true, "cancel": true, "join_on_div0": true, "self_join_div0": true}
 
-func genFail(t *rapid.T, T, B *gTbl, enum bool) failT {
+// genMode: which sub-check the failing statement is generated for.
+type genMode struct {
+	enum bool // row-bound shapes only
+	seq  bool // one of several failing statements of a transaction: nothing that changes attributes, names carry the step
+	step int
+}
+
+func genFail(t *rapid.T, T, B *gTbl, mode genMode) failT {
+	enum := mode.enum
 	ws := make([]int, len(failKinds))
 	for i, k := range failKinds {
 		ws[i] = k.w
 		if enum && !rowBound[k.name] {
 			ws[i] = 0
+		}
+		if mode.seq && k.name == "cancel" {
+			ws[i] = 8 // a cancelled statement that completes ends a sequence
 		}
 	}
 	kind := failKinds[fw.Weighted(t, "fail_kind", ws)].name
@@ -498,6 +539,12 @@ func genFail(t *rapid.T, T, B *gTbl, enum bool) failT {
 		kind = "update_set_div0"
 	case kind == "create_exists" && T.Kind == "temp" && B.Kind == "temp":
 		kind = "create_as_div0"
+	case kind == "create_if_not_exists" && T.Kind == "temp" && B.Kind == "temp":
+		kind = "create_as_div0"
+	case kind == "join_on_div0" && (len(B.ids) == 0 || len(T.ids)*len(B.ids) > 20000):
+		kind = "update_set_div0"
+	case kind == "self_join_div0" && len(T.ids)*len(T.ids) > 20000:
+		kind = "update_set_div0"
 	}
 
 	// the table that supplies rows to INSERT/REPLACE ... SELECT and CREATE TABLE AS
@@ -522,25 +569,85 @@ func genFail(t *rapid.T, T, B *gTbl, enum bool) failT {
 	smallJoin := len(T.ids)*len(B.ids) <= 20000
 
 	f := failT{Target: T.Name, Refs: one, Aliased: aliased}
-	sh := &sharer{t: t, tbls: []*gTbl{T, B}, refs: map[string]bool{T.Name: true}}
+	sh := &sharer{t: t, tbls: []*gTbl{T, B}, refs: map[string]bool{T.Name: true}, base: mode.step * 20}
+
+	// how the evaluation fails at the row whose id is K: fx(ref) renders a numeric expression over the
+	// (table-qualified) id column ref that fails exactly there and sets the error number the failure has
+	var howRefs []string
+	manyEvaluations := false // the expression is evaluated for every pair of a join: nothing that reads a table each time
+	fx := func(ref string) string {
+		O := T
+		if fw.Pct(t, "how_table_other", 50) {
+			O = B
+		}
+		hw := []int{34, 8, 8, 10, 10, 12, 10, 8}
+		if manyEvaluations {
+			hw = []int{34, 8, 8, 0, 0, 0, 10, 0}
+		}
+		how := []string{"div0", "case_div0", "subquery_dual", "subquery_table", "subquery_aggregate", "subquery_too_many", "function_error", "function_select"}[fw.Weighted(t, "how", hw)]
+		if how == "subquery_too_many" && len(O.ids) < 2 {
+			how = "subquery_table"
+		}
+		f.How = how
+		f.Errno = errDiv0
+		switch how {
+		case "case_div0":
+			return fmt.Sprintf("CASE WHEN %s = {K} THEN 1 / 0 ELSE 1 END", ref)
+		case "subquery_dual":
+			return fmt.Sprintf("(SELECT 1 / (%s - {K}) FROM DUAL)", ref)
+		case "subquery_table":
+			howRefs = append(howRefs, O.Name)
+			return fmt.Sprintf("(SELECT 1 / (%s - {K}) FROM %s zz LIMIT 1)", ref, O.Name)
+		case "subquery_aggregate":
+			howRefs = append(howRefs, O.Name)
+			return fmt.Sprintf("(SELECT COUNT(*) / (%s - {K}) FROM %s zz)", ref, O.Name)
+		case "subquery_too_many":
+			// one record for every row but K, all records of the other table for K
+			howRefs = append(howRefs, O.Name)
+			f.Errno = errTooManyRecords
+			return fmt.Sprintf("(SELECT zz.id FROM %s zz WHERE %s = {K} OR zz.id = %d)", O.Name, ref, O.ids[0])
+		case "function_error":
+			fn := fmt.Sprintf("fe%d", mode.step)
+			f.Pre = append(f.Pre, stmtT{Kind: "function", SQL: fmt.Sprintf("DECLARE %s FUNCTION (@x, @k) AS BEGIN IF @x = @k THEN TRIGGER ERROR 'row refused'; END IF; RETURN 1; END;", fn)})
+			f.Errno = errUserTriggered
+			return fmt.Sprintf("%s(%s, {K})", fn, ref)
+		case "function_select":
+			fn := fmt.Sprintf("fs%d", mode.step)
+			f.Pre = append(f.Pre, stmtT{Kind: "function", SQL: fmt.Sprintf("DECLARE %s FUNCTION (@x, @k) AS BEGIN VAR @n; SELECT COUNT(*) INTO @n FROM %s; RETURN @n / (@x - @k); END;", fn, O.Name)})
+			howRefs = append(howRefs, O.Name)
+			return fmt.Sprintf("%s(%s, {K})", fn, ref)
+		}
+		return fmt.Sprintf("1 / (%s - {K})", ref)
+	}
+	// the target table as the statement names it: by its name or (file-backed CSV tables) by its file name
+	tn := T.Name
+	if T.fileBacked() && T.Fmt == "" && fw.Pct(t, "target_by_file_name", 20) {
+		tn = "`" + fileOf(T) + "`"
+		f.ByFile = true
+	}
 	switch kind {
 	case "update_set_div0":
 		k := pickRow(t, T.ids)
-		f.SK, f.FK, f.Drive, f.K, f.Errno = "update", "div0", T.Name, k, errDiv0
-		switch fw.Range(t, "shape", 0, 3) {
+		f.SK, f.FK, f.Drive, f.K = "update", "div0", T.Name, k
+		x := fx(T.Name + ".id")
+		switch fw.Range(t, "shape", 0, 4) {
+		case 4:
+			// a direct field reference: the new cell would hold the very object another cell of the table holds
+			f.SQL = fmt.Sprintf("UPDATE %s SET v = %s, w = %s;", tn, fw.PickU(t, "direct_ref", []string{"w", "id", T.Name + ".w"}), x)
+			f.Shared = 1
 		case 3:
-			f.SQL = fmt.Sprintf("UPDATE %s SET v = %s, w = 1 / (id - {K});", T.Name, sh.expr())
+			f.SQL = fmt.Sprintf("UPDATE %s SET v = %s, w = %s;", tn, sh.expr(), x)
 		case 0:
-			f.SQL = fmt.Sprintf("UPDATE %s SET v = 'F', w = 1 / (id - {K});", T.Name)
+			f.SQL = fmt.Sprintf("UPDATE %s SET v = 'F', w = %s;", tn, x)
 		case 1:
-			f.SQL = fmt.Sprintf("UPDATE %s SET w = 1 / (id - {K}), v = 'F' WHERE id > 0;", T.Name)
+			f.SQL = fmt.Sprintf("UPDATE %s SET w = %s, v = 'F' WHERE id > 0;", tn, x)
 		default:
-			f.SQL = fmt.Sprintf("UPDATE %s SET id = id + 1000, v = 'F' || (1 / (id - {K}));", T.Name)
+			f.SQL = fmt.Sprintf("UPDATE %s SET id = id + 1000, v = 'F' || (%s);", tn, x)
 		}
 	case "update_where_div0":
 		k := pickRow(t, T.ids)
-		f.SK, f.FK, f.Drive, f.K, f.Errno = "update", "div0_where", T.Name, k, errDiv0
-		f.SQL = fmt.Sprintf("UPDATE %s SET v = 'F' WHERE 1 / (id - {K}) IS NOT NULL;", T.Name)
+		f.SK, f.FK, f.Drive, f.K = "update", "div0_where", T.Name, k
+		f.SQL = fmt.Sprintf("UPDATE %s SET v = 'F' WHERE %s IS NOT NULL;", tn, fx(T.Name+".id"))
 	case "update_unknown":
 		f.SK, f.FK, f.Errno = "update", "unknown_field", errFieldNotExist
 		switch fw.Range(t, "shape", 0, 2) {
@@ -585,18 +692,22 @@ func genFail(t *rapid.T, T, B *gTbl, enum bool) failT {
 			ta, set, fromT, fromB, tb, a, ta, tb, b)
 	case "update_multi_div0":
 		k := pickRow(t, common)
-		f.SK, f.FK, f.Drive, f.Common, f.K, f.Errno, f.Refs = "update_multi", "div0", T.Name, B.Name, k, errDiv0, both
-		f.SQL = fmt.Sprintf("UPDATE %s, %s SET %s.v = 'F', %s.v = 'G', %s.w = 1 / (%s.id - {K}) FROM %s JOIN %s ON %s.id = %s.id;",
-			ta, tb, ta, tb, tb, ta, fromT, fromB, ta, tb)
+		f.SK, f.FK, f.Drive, f.Common, f.K, f.Refs = "update_multi", "div0", T.Name, B.Name, k, both
+		f.SQL = fmt.Sprintf("UPDATE %s, %s SET %s.v = 'F', %s.v = 'G', %s.w = %s FROM %s JOIN %s ON %s.id = %s.id;",
+			ta, tb, ta, tb, tb, fx(ta+".id"), fromT, fromB, ta, tb)
 	case "delete_div0":
 		k := pickRow(t, T.ids)
-		f.SK, f.FK, f.Drive, f.K, f.Errno = "delete", "div0_where", T.Name, k, errDiv0
-		f.SQL = fmt.Sprintf("DELETE FROM %s WHERE 1 / (%s.id - {K}) IS NOT NULL;", fromT, ta)
+		f.SK, f.FK, f.Drive, f.K = "delete", "div0_where", T.Name, k
+		if aliased {
+			f.SQL = fmt.Sprintf("DELETE FROM %s WHERE %s IS NOT NULL;", fromT, fx(ta+".id"))
+		} else {
+			f.SQL = fmt.Sprintf("DELETE FROM %s WHERE %s IS NOT NULL;", tn, fx(ta+".id"))
+		}
 	case "delete_multi_div0":
 		k := pickRow(t, common)
-		f.SK, f.FK, f.Drive, f.Common, f.K, f.Errno, f.Refs = "delete_multi", "div0_where", T.Name, B.Name, k, errDiv0, both
-		f.SQL = fmt.Sprintf("DELETE %s, %s FROM %s JOIN %s ON %s.id = %s.id WHERE 1 / (%s.id - {K}) IS NOT NULL;",
-			ta, tb, fromT, fromB, ta, tb, tb)
+		f.SK, f.FK, f.Drive, f.Common, f.K, f.Refs = "delete_multi", "div0_where", T.Name, B.Name, k, both
+		f.SQL = fmt.Sprintf("DELETE %s, %s FROM %s JOIN %s ON %s.id = %s.id WHERE %s IS NOT NULL;",
+			ta, tb, fromT, fromB, ta, tb, fx(tb+".id"))
 	case "delete_unknown":
 		f.SK, f.FK, f.Errno = "delete", "unknown_field", errFieldNotExist
 		f.SQL = fmt.Sprintf("DELETE FROM %s WHERE nosuch = 1;", fromT)
@@ -614,7 +725,11 @@ func genFail(t *rapid.T, T, B *gTbl, enum bool) failT {
 			set(fw.PickU(t, "set_any_attr", []string{"FORMAT", "ENCODING", "HEADER"}), fw.PickU(t, "set_any_val", []string{"'JSON'", "'UTF16'", "FALSE"}))
 			break
 		}
-		switch fw.Weighted(t, "set_fail", []int{34, 30, 14, 8, 14}) {
+		setFail := fw.Weighted(t, "set_fail", []int{34, 30, 14, 8, 14})
+		if mode.seq && setFail == 0 && X.format != "JSON" && X.format != "JSONL" {
+			setFail = 1 // no statement of a sequence changes an attribute (the tables are re-read by name after a COMMIT)
+		}
+		switch setFail {
 		case 0:
 			// refused combination: a JSON table takes UTF8 only (the format may come from the file, from a
 			// SET FORMAT of the prefix, or from one placed right before)
@@ -758,26 +873,38 @@ func genFail(t *rapid.T, T, B *gTbl, enum bool) failT {
 		f.SQL = fmt.Sprintf("INSERT INTO %s (id, nosuch) VALUES (%d, 1), (%d, 2);", T.Name, T.next, T.next+1)
 	case "insert_select_div0":
 		k := pickRow(t, S.ids)
-		f.SK, f.FK, f.Drive, f.K, f.Errno, f.Refs = "insert_select", "div0", S.Name, k, errDiv0, srcRefs()
-		f.SQL = fmt.Sprintf("INSERT INTO %s (id, v, w) SELECT id + 5000, 'F', 1 / (id - {K}) FROM %s;", T.Name, source(t, S, aliased))
+		f.SK, f.FK, f.Drive, f.K, f.Refs = "insert_select", "div0", S.Name, k, srcRefs()
+		src := source(t, S, aliased)
+		f.SQL = fmt.Sprintf("%sINSERT INTO %s (id, v, w) SELECT id + 5000, 'F', %s FROM %s;", src.with, tn, fx(src.qual+".id"), src.from)
 	case "insert_select_length":
 		f.SK, f.FK, f.Errno, f.Refs, f.Part = "insert_select", "field_length", errSelectLength, srcRefs(), true
-		f.SQL = fmt.Sprintf("INSERT INTO %s (id, v) SELECT id + 5000, 'F', w FROM %s;", T.Name, source(t, S, aliased))
+		src := source(t, S, aliased)
+		f.SQL = fmt.Sprintf("%sINSERT INTO %s (id, v) SELECT id + 5000, 'F', w FROM %s;", src.with, tn, src.from)
 	case "replace_select_div0":
 		k := pickRow(t, S.ids)
-		f.SK, f.FK, f.Drive, f.K, f.Errno, f.Refs = "replace_select", "div0", S.Name, k, errDiv0, srcRefs()
-		f.SQL = fmt.Sprintf("REPLACE INTO %s (id, v, w) USING (id) SELECT id, 'F', 1 / (id - {K}) FROM %s;", T.Name, source(t, S, aliased))
+		f.SK, f.FK, f.Drive, f.K, f.Refs = "replace_select", "div0", S.Name, k, srcRefs()
+		src := source(t, S, aliased)
+		f.SQL = fmt.Sprintf("%sREPLACE INTO %s (id, v, w) USING (id) SELECT id, 'F', %s FROM %s;", src.with, tn, fx(src.qual+".id"), src.from)
 	case "replace_key":
 		f.SK, f.FK, f.Errno, f.Part = "replace_values", "key_not_set", errKeyNotSet, true
 		f.SQL = fmt.Sprintf("REPLACE INTO %s (v, w) USING (id) VALUES ('F', 1), ('G', 2);", T.Name)
 	case "alter_add_div0":
 		k := pickRow(t, T.ids)
-		f.SK, f.FK, f.Drive, f.K, f.Errno = "alter_add", "div0_default", T.Name, k, errDiv0
+		f.SK, f.FK, f.Drive, f.K = "alter_add", "div0_default", T.Name, k
 		pos := []string{"", " FIRST", " LAST", " AFTER v", " BEFORE id"}[fw.Range(t, "add_pos", 0, 4)]
+		x := fx(T.Name + ".id")
 		if fw.Pct(t, "add_two", 40) {
-			f.SQL = fmt.Sprintf("ALTER TABLE %s ADD (c8 DEFAULT 'F', c9 DEFAULT 1 / (id - {K}))%s;", T.Name, pos)
+			// the first default: a literal, a direct field reference (the new cell holds the object of another cell) or a value read from a table
+			d8 := "'F'"
+			switch fw.Range(t, "add_default_first", 0, 3) {
+			case 1:
+				d8, f.Shared = fw.PickU(t, "direct_ref", []string{"v", "w", T.Name + ".v"}), 1
+			case 2:
+				d8 = sh.expr()
+			}
+			f.SQL = fmt.Sprintf("ALTER TABLE %s ADD (c8 DEFAULT %s, c9 DEFAULT %s)%s;", tn, d8, x, pos)
 		} else {
-			f.SQL = fmt.Sprintf("ALTER TABLE %s ADD c9 DEFAULT 1 / (id - {K})%s;", T.Name, pos)
+			f.SQL = fmt.Sprintf("ALTER TABLE %s ADD c9 DEFAULT %s%s;", tn, x, pos)
 		}
 	case "alter_add_bad":
 		f.SK = "alter_add"
@@ -802,18 +929,20 @@ func genFail(t *rapid.T, T, B *gTbl, enum bool) failT {
 		}
 	case "create_as_div0":
 		k := pickRow(t, S.ids)
-		f.SK, f.FK, f.Target, f.Drive, f.K, f.Errno, f.Refs = "create_as", "div0", "", S.Name, k, errDiv0, []string{S.Name}
+		f.SK, f.FK, f.Target, f.Drive, f.K, f.Refs = "create_as", "div0", "", S.Name, k, []string{S.Name}
 		cols := ""
 		if fw.Pct(t, "create_cols", 40) {
 			cols = " (a, b, c)"
 		}
-		f.SQL = fmt.Sprintf("CREATE TABLE `%s`%s AS SELECT id, v, 1 / (id - {K}) AS q FROM %s;", newFile, cols, source(t, S, aliased))
+		src := source(t, S, aliased)
+		f.SQL = fmt.Sprintf("CREATE TABLE `%s`%s AS %sSELECT id, v, %s AS q FROM %s;", newFile, cols, src.with, fx(src.qual+".id"), src.from)
 	case "create_bad":
 		f.Target, f.Refs = "", nil
 		switch fw.Range(t, "shape", 0, 2) {
 		case 0:
 			f.SK, f.FK, f.Errno, f.Refs, f.Part = "create_as", "field_length", errTableLength, []string{S.Name}, true
-			f.SQL = fmt.Sprintf("CREATE TABLE `%s` (a, b) AS SELECT id, v, w FROM %s;", newFile, source(t, S, aliased))
+			src := source(t, S, aliased)
+			f.SQL = fmt.Sprintf("CREATE TABLE `%s` (a, b) AS %sSELECT id, v, w FROM %s;", newFile, src.with, src.from)
 		case 1:
 			f.SK, f.FK, f.Errno = "create", "duplicate_column", errDuplicate
 			f.SQL = fmt.Sprintf("CREATE TABLE `%s` (a, b, a);", newFile)
@@ -833,6 +962,85 @@ func genFail(t *rapid.T, T, B *gTbl, enum bool) failT {
 		} else {
 			f.SK, f.Refs = "create_as", []string{S.Name}
 			f.SQL = fmt.Sprintf("CREATE TABLE `%s` AS SELECT id, 'F' AS v FROM %s;", fileOf(E), S.Name)
+		}
+	case "missing_table":
+		// a later item of the FROM clause (or the source of the sub-select) names a file that does not exist:
+		// the statement fails while loading, after the tables before it were loaded (for update) and cached
+		f.FK, f.Errno, f.Part = "missing_table", errFileNotExist, true
+		switch fw.Range(t, "shape", 0, 5) {
+		case 0:
+			f.SK = "update"
+			f.SQL = fmt.Sprintf("UPDATE %s SET %s.v = 'F' FROM %s JOIN nosuch m ON %s.id = m.id;", ta, ta, fromT, ta)
+		case 1:
+			f.SK, f.Refs = "update_multi", both
+			f.SQL = fmt.Sprintf("UPDATE %s, %s SET %s.v = 'F', %s.v = 'G' FROM %s JOIN %s ON %s.id = %s.id JOIN nosuch m ON %s.id = m.id;", ta, tb, ta, tb, fromT, fromB, ta, tb, ta)
+			if !smallJoin {
+				f.SK, f.Refs = "update", one
+				f.SQL = fmt.Sprintf("UPDATE %s SET %s.v = 'F' FROM %s CROSS JOIN nosuch m;", ta, ta, fromT)
+			}
+		case 2:
+			f.SK = "delete"
+			f.SQL = fmt.Sprintf("DELETE %s FROM %s JOIN nosuch m ON %s.id = m.id;", ta, fromT, ta)
+		case 3:
+			f.SK, f.Part = "delete", false
+			f.SQL = fmt.Sprintf("DELETE %s FROM nosuch m JOIN %s ON %s.id = m.id;", ta, fromT, ta)
+		case 4:
+			f.SK = "insert_select"
+			f.SQL = fmt.Sprintf("INSERT INTO %s (id, v, w) SELECT id + 5000, 'F', w FROM nosuch;", tn)
+		default:
+			f.SK = "replace_select"
+			f.SQL = fmt.Sprintf("REPLACE INTO %s (id, v) USING (id) SELECT m.id, 'F' FROM %s CROSS JOIN nosuch m;", tn, fromB)
+			f.Refs = both
+		}
+	case "join_on_div0":
+		// the join condition fails at row K of the target while the FROM clause is being loaded
+		k := pickRow(t, T.ids)
+		f.FK, f.Drive, f.K, f.Refs = "div0_join_on", T.Name, k, both
+		manyEvaluations = len(T.ids)*len(B.ids) > 600
+		on := fmt.Sprintf("%s IS NOT NULL AND %s.id = %s.id", fx(ta+".id"), ta, tb)
+		switch fw.Range(t, "shape", 0, 2) {
+		case 0:
+			f.SK = "update"
+			f.SQL = fmt.Sprintf("UPDATE %s SET %s.v = 'F' FROM %s JOIN %s ON %s;", ta, ta, fromT, fromB, on)
+		case 1:
+			f.SK = "update_multi"
+			f.SQL = fmt.Sprintf("UPDATE %s, %s SET %s.v = 'F', %s.v = 'G' FROM %s LEFT JOIN %s ON %s;", ta, tb, ta, tb, fromT, fromB, on)
+		default:
+			f.SK = "delete_multi"
+			f.SQL = fmt.Sprintf("DELETE %s, %s FROM %s JOIN %s ON %s;", ta, tb, fromT, fromB, on)
+		}
+	case "self_join_div0":
+		// the target joined with itself: the same file (or temporary table) is held under two names
+		k := pickRow(t, T.ids)
+		f.FK, f.Drive, f.K = "div0_self_join", T.Name, k
+		switch fw.Range(t, "shape", 0, 2) {
+		case 0:
+			f.SK = "update"
+			f.SQL = fmt.Sprintf("UPDATE p SET p.v = 'F', p.w = %s FROM %s p JOIN %s q ON p.id = q.id;", fx("q.id"), T.Name, T.Name)
+		case 1:
+			f.SK = "update_multi"
+			f.SQL = fmt.Sprintf("UPDATE p, q SET p.v = 'F', q.w = %s FROM %s p JOIN %s q ON p.id = q.id;", fx("p.id"), T.Name, T.Name)
+		default:
+			f.SK = "delete_multi"
+			f.SQL = fmt.Sprintf("DELETE p, q FROM %s p JOIN %s q ON p.id = q.id WHERE %s IS NOT NULL;", T.Name, T.Name, fx("q.id"))
+		}
+	case "create_if_not_exists":
+		// IF NOT EXISTS over a table that exists (on disk or created in this transaction) with other columns
+		E := T
+		if E.Kind == "temp" {
+			E = B
+		}
+		f.Target, f.Refs = "", []string{E.Name}
+		f.SK, f.FK, f.Errno = "create", "if_not_exists_mismatch", errFieldLength
+		switch fw.Range(t, "shape", 0, 2) {
+		case 0:
+			f.SQL = fmt.Sprintf("CREATE TABLE IF NOT EXISTS `%s` (a);", fileOf(E))
+		case 1:
+			f.Errno = errFieldNotExist
+			f.SQL = fmt.Sprintf("CREATE TABLE IF NOT EXISTS `%s` (%s, nosuch);", fileOf(E), strings.Join(E.cols[:len(E.cols)-1], ", "))
+		default:
+			f.SK, f.Refs = "create_as", []string{E.Name, S.Name}
+			f.SQL = fmt.Sprintf("CREATE TABLE IF NOT EXISTS `%s` (a) AS SELECT id FROM %s;", fileOf(E), S.Name)
 		}
 	case "cancel":
 		f.FK = "cancel"
@@ -857,10 +1065,12 @@ func genFail(t *rapid.T, T, B *gTbl, enum bool) failT {
 			f.SK, f.SQL = "delete", fmt.Sprintf("DELETE FROM %s WHERE %s.id %% 2 = 0;", fromT, ta)
 		case 3:
 			f.SK, f.Refs = "insert_select", srcRefs()
-			f.SQL = fmt.Sprintf("INSERT INTO %s (id, v, w) SELECT id + 5000, 'F', w FROM %s;", T.Name, source(t, S, aliased))
+			src := source(t, S, aliased)
+			f.SQL = fmt.Sprintf("%sINSERT INTO %s (id, v, w) SELECT id + 5000, 'F', w FROM %s;", src.with, tn, src.from)
 		case 4:
 			f.SK, f.Refs = "replace_select", srcRefs()
-			f.SQL = fmt.Sprintf("REPLACE INTO %s (id, v) USING (id) SELECT id, 'F' FROM %s;", T.Name, source(t, S, aliased))
+			src := source(t, S, aliased)
+			f.SQL = fmt.Sprintf("%sREPLACE INTO %s (id, v) USING (id) SELECT id, 'F' FROM %s;", src.with, tn, src.from)
 		case 5:
 			f.SK, f.SQL = "alter_add", fmt.Sprintf("ALTER TABLE %s ADD c9 DEFAULT id * 2 AFTER id;", T.Name)
 		case 6:
@@ -907,6 +1117,11 @@ func genFail(t *rapid.T, T, B *gTbl, enum bool) failT {
 			f.Refs = sh.refList()
 		}
 	}
+	for _, n := range howRefs {
+		if len(f.Refs) < 2 && (len(f.Refs) == 0 || f.Refs[0] != n) {
+			f.Refs = append(append([]string(nil), f.Refs...), n)
+		}
+	}
 	return f
 }
 
@@ -939,7 +1154,7 @@ func genCaseOf(t *rapid.T, enum bool) caseT {
 		}
 		c.Prefix = append(c.Prefix, genPrefix(t, i, g))
 	}
-	c.F = genFail(t, T, B, enum)
+	c.F = genFail(t, T, B, genMode{enum: enum})
 	if enum {
 		c.F.Ns = nil
 	}
@@ -1045,8 +1260,9 @@ func (c *pollCtx) Reset() (polls int, cancelled bool) {
 // snapT is the observable content of a table: column names and cells as
 // text, with NULL kept apart from every text.
 type snapT struct {
-	Cols []string
-	Rows [][]string
+	Cols  []string
+	Rows  [][]string
+	Kinds [][]string // value type of every cell as the session returned it (nil: not known, e.g. a modelled table)
 }
 
 const nullCell = "\x00NULL"
@@ -1055,7 +1271,9 @@ func snapOf(tbl run.Tbl) snapT {
 	s := snapT{Cols: tbl.Header}
 	for _, r := range tbl.Rows {
 		row := make([]string, len(r))
+		kinds := make([]string, len(r))
 		for i, v := range r {
+			kinds[i] = v.K
 			if v.IsNull() {
 				row[i] = nullCell
 			} else {
@@ -1063,7 +1281,17 @@ func snapOf(tbl run.Tbl) snapT {
 			}
 		}
 		s.Rows = append(s.Rows, row)
+		s.Kinds = append(s.Kinds, kinds)
 	}
+	if s.Kinds == nil {
+		s.Kinds = [][]string{}
+	}
+	return s
+}
+
+// untyped drops the value types: the snapshot then stands for a modelled content.
+func (s snapT) untyped() snapT {
+	s.Kinds = nil
 	return s
 }
 
@@ -1116,6 +1344,14 @@ func diffSnap(a, b snapT) string {
 	}
 	if changed > 0 {
 		return fmt.Sprintf("%d of %d rows differ; %s", changed, len(a.Rows), first)
+	}
+	if a.Kinds != nil && b.Kinds != nil {
+		// same text: within one session the cells must also still hold values of the same type
+		for i := range a.Rows {
+			if strings.Join(a.Kinds[i], "") != strings.Join(b.Kinds[i], "") {
+				return fmt.Sprintf("row %d %s: the value types of the cells were %v, are now %v (same text)", i, showRow(a.Rows[i]), a.Kinds[i], b.Kinds[i])
+			}
+		}
 	}
 	return ""
 }
@@ -1179,10 +1415,21 @@ func attrsOf(s *run.Sess) map[string]string {
 
 func csvOf(t tblT) string {
 	var b strings.Builder
-	b.WriteString("id,v,w\n")
+	eol := "\n"
+	if t.Raw == "crlf" {
+		eol = "\r\n"
+	}
+	b.WriteString("id,v,w" + eol)
 	for i := 0; i < t.N; i++ {
 		id := idAt(t, i)
-		fmt.Fprintf(&b, "%d,a%d,%d\n", id, id, id*10)
+		switch {
+		case t.Raw == "quoted" && i%2 == 0:
+			fmt.Fprintf(&b, "%d,\"a%d\",%d%s", id, id, id*10, eol)
+		case t.Raw == "noeol" && i == t.N-1:
+			fmt.Fprintf(&b, "%d,a%d,%d", id, id, id*10)
+		default:
+			fmt.Fprintf(&b, "%d,a%d,%d%s", id, id, id*10, eol)
+		}
 	}
 	return b.String()
 }
@@ -1275,6 +1522,143 @@ func (e *env) read(name string) (snapT, error) {
 		return snapT{}, fmt.Errorf("SELECT * FROM %s gave %d results", name, len(r.Views))
 	}
 	return snapOf(r.Views[0]), nil
+}
+
+// ---------------------------------------------------------------------
+// what is observed around a failed statement
+
+// sessH bundles one session over one directory with the tables of the case.
+type sessH struct {
+	e      *env
+	s      *run.Sess
+	dir    string
+	tables []tblT
+}
+
+// stateT is what a failed statement must leave alone besides the table contents: the attributes of
+// the cached tables, the plain files of the directory and what the transaction holds for COMMIT.
+type stateT struct {
+	attrs map[string]string
+	files map[string]string
+	unc   string
+}
+
+const uncommittedQuery = "SELECT @#UNCOMMITTED AS uncommitted, @#CREATED AS created, @#UPDATED AS updated, @#UPDATED_VIEWS AS updated_views;"
+
+// uncommitted reads the runtime information on the pending changes of the transaction (what a COMMIT would write).
+func (h *sessH) uncommitted() (string, error) {
+	r := h.e.exec(uncommittedQuery)
+	if r.Err != nil {
+		return "", r.Err
+	}
+	if len(r.Views) != 1 || len(r.Views[0].Rows) != 1 {
+		return "", fmt.Errorf("%s gave no single row", uncommittedQuery)
+	}
+	var ss []string
+	for i, v := range r.Views[0].Rows[0] {
+		ss = append(ss, r.Views[0].Header[i]+"="+v.S)
+	}
+	return strings.Join(ss, " "), nil
+}
+
+func (h *sessH) state() (stateT, error) {
+	unc, err := h.uncommitted()
+	if err != nil {
+		return stateT{}, err
+	}
+	return stateT{attrs: attrsOf(h.s), files: plainFiles(h.dir), unc: unc}, nil
+}
+
+// compare compares every table with the wanted state.
+func (h *sessH) compare(sigBase, target, what string, want map[string]snapT) *fw.Violation {
+	e := h.e
+	for _, t := range h.tables {
+		w, ok := want[t.Name]
+		if !ok {
+			continue
+		}
+		got, err := e.read(t.Name)
+		if err != nil {
+			return fw.V(sigBase+"_table_unreadable", "%s: SELECT * FROM %s (%s table) fails: %v%s", what, t.Name, t.Kind, err, e.tail())
+		}
+		if d := diffSnap(w, got); d != "" {
+			role := "other"
+			if t.Name == target {
+				role = "target"
+			}
+			return fw.V(fmt.Sprintf("%s_changed_%s_%s_table", sigBase, role, t.Kind), "%s: %s (%s table, %d rows) is not what it was before the statement: %s%s", what, t.Name, t.Kind, len(w.Rows), d, e.tail())
+		}
+		// the columns still belong to the table under its own name: table-qualified references resolve
+		if len(w.Cols) > 0 {
+			var qs []string
+			for _, cn := range w.Cols {
+				qs = append(qs, t.Name+"."+cn)
+			}
+			st := fmt.Sprintf("SELECT %s FROM %s;", strings.Join(qs, ", "), t.Name)
+			r := e.exec(st)
+			if r.Err != nil {
+				return fw.V(fmt.Sprintf("%s_then_qualified_select_fails_%s_table", sigBase, t.Kind), "%s: %s fails: %v (SELECT * FROM %s works)%s", what, st, r.Err, t.Name, e.tail())
+			}
+			if len(r.Views) != 1 {
+				return fw.Harness("%s gave %d results", st, len(r.Views))
+			}
+			if d := diffSnap(w, snapOf(r.Views[0])); d != "" {
+				return fw.V(fmt.Sprintf("%s_qualified_select_differs_%s_table", sigBase, t.Kind), "%s: %s is not the table as it was before the statement: %s%s", what, st, d, e.tail())
+			}
+		}
+	}
+	return nil
+}
+
+// compareState: attributes of the cached tables, plain files and pending changes are those from before.
+func (h *sessH) compareState(sigBase, what string, before stateT, isCreate, noNewControlFile bool) *fw.Violation {
+	e := h.e
+	after := attrsOf(h.s)
+	for _, name := range fw.SortedKeys(before.attrs) {
+		if a, ok := after[name]; ok && a != before.attrs[name] {
+			return fw.V(sigBase+"_changed_table_attributes", "%s: attributes of %s were {%s}, are now {%s}%s", what, name, before.attrs[name], a, e.tail())
+		}
+	}
+	if d := run.DiffSnap(before.files, plainFiles(h.dir)); d != "" {
+		sig := sigBase + "_changed_files"
+		if isCreate {
+			sig = sigBase + "_left_or_removed_file"
+		}
+		return fw.V(sig, "%s: files of the directory before -> after: %s%s", what, d, e.tail())
+	}
+	if noNewControlFile {
+		for _, cf := range run.ControlFiles(h.dir) {
+			if strings.Contains(cf, newFile) {
+				return fw.V(sigBase+"_left_lock", "%s: control file %s of the table that was not created remains%s", what, cf, e.tail())
+			}
+		}
+	}
+	// what a COMMIT would write: the failed statement has registered nothing and withdrawn nothing
+	unc, err := h.uncommitted()
+	if err != nil {
+		return fw.V(sigBase+"_then_select_fails", "%s after the failed statement: %v%s", uncommittedQuery, err, e.tail())
+	}
+	if unc != before.unc {
+		return fw.V(sigBase+"_changed_uncommitted_state", "%s: the runtime information on pending changes was {%s}, is now {%s}%s", what, before.unc, unc, e.tail())
+	}
+	return nil
+}
+
+// churn: data-neutral statements that allocate many values of every pooled type, so that an
+// object the failed statement wrongly handed back to the pool is overwritten before the tables are read
+func (h *sessH) churn(sigBase string) *fw.Violation {
+	e := h.e
+	stmts := []string{"SELECT 'zz1', 'zz2', 'zz3', 'zz4', 'zz5', 'zz6', 987001, 987002, 987003, 987004, 987005, 98.5, 97.5, 96.5 FROM DUAL;"}
+	for _, t := range h.tables {
+		stmts = append(stmts, fmt.Sprintf("SELECT v || '~zz', w || '~yy', id + 987000, id * 1.5 FROM %s LIMIT 8;", t.Name))
+	}
+	stmts = append(stmts, "SELECT 'zy1' || 'zy2', 'zy3', 986001 + 1, 986002, 95.5 FROM DUAL;")
+	for _, st := range stmts {
+		if r := e.exec(st); r.Err != nil {
+			return fw.V(sigBase+"_then_select_fails", "%s after the failed statement: %v%s", st, r.Err, e.tail())
+		}
+	}
+	return nil
 }
 
 func sizeClass(n int) string {
@@ -1506,9 +1890,6 @@ func checkOnce(c caseT, limit time.Duration) (fw.Outcome, *fw.Violation) {
 		}
 		before[t.Name] = sn
 	}
-	filesBefore := plainFiles(dir)
-	attrsBefore := attrsOf(s)
-
 	f := c.F
 	kindOf := func(name string) string {
 		if t, ok := byName[name]; ok {
@@ -1531,6 +1912,17 @@ func checkOnce(c caseT, limit time.Duration) (fw.Outcome, *fw.Violation) {
 		state = "cold"
 	}
 	class("stmt:" + f.SK + "/" + f.FK)
+	if f.How != "" {
+		class("how:" + f.How)
+	}
+	if f.ByFile {
+		class("target_by_file_name")
+	}
+	for _, t := range c.Tables {
+		if t.Raw != "" {
+			class("file_text:" + t.Raw)
+		}
+	}
 	if f.SK == "alter_set" {
 		fw.AddExtra("cases:alter_set/"+f.FK, 1)
 	}
@@ -1612,84 +2004,18 @@ func checkOnce(c caseT, limit time.Duration) (fw.Outcome, *fw.Violation) {
 
 	sigBase := "failed_" + f.SK + "_" + f.FK
 
-	// compare compares every table with the wanted state.
+	h := &sessH{e: e, s: s, dir: dir, tables: c.Tables}
+	stBefore, err := h.state()
+	if err != nil {
+		return o, fw.Harness("reading the runtime information before the statement failed: %v%s", err, e.tail())
+	}
 	compare := func(what string, want map[string]snapT) *fw.Violation {
-		for _, t := range c.Tables {
-			w, ok := want[t.Name]
-			if !ok {
-				continue
-			}
-			got, err := e.read(t.Name)
-			if err != nil {
-				return fw.V(sigBase+"_table_unreadable", "%s: SELECT * FROM %s (%s table) fails: %v%s", what, t.Name, t.Kind, err, e.tail())
-			}
-			if d := diffSnap(w, got); d != "" {
-				role := "other"
-				if t.Name == f.Target {
-					role = "target"
-				}
-				return fw.V(fmt.Sprintf("%s_changed_%s_%s_table", sigBase, role, t.Kind), "%s: %s (%s table, %d rows) is not what it was before the statement: %s%s", what, t.Name, t.Kind, len(w.Rows), d, e.tail())
-			}
-			// the columns still belong to the table under its own name: table-qualified references resolve
-			if len(w.Cols) > 0 {
-				var qs []string
-				for _, cn := range w.Cols {
-					qs = append(qs, t.Name+"."+cn)
-				}
-				st := fmt.Sprintf("SELECT %s FROM %s;", strings.Join(qs, ", "), t.Name)
-				r := e.exec(st)
-				if r.Err != nil {
-					return fw.V(fmt.Sprintf("%s_then_qualified_select_fails_%s_table", sigBase, t.Kind), "%s: %s fails: %v (SELECT * FROM %s works)%s", what, st, r.Err, t.Name, e.tail())
-				}
-				if len(r.Views) != 1 {
-					return fw.Harness("%s gave %d results", st, len(r.Views))
-				}
-				if d := diffSnap(w, snapOf(r.Views[0])); d != "" {
-					return fw.V(fmt.Sprintf("%s_qualified_select_differs_%s_table", sigBase, t.Kind), "%s: %s is not the table as it was before the statement: %s%s", what, st, d, e.tail())
-				}
-			}
-		}
-		return nil
+		return h.compare(sigBase, f.Target, what, want)
 	}
 	compareFiles := func(what string) *fw.Violation {
-		after := attrsOf(s)
-		for _, name := range fw.SortedKeys(attrsBefore) {
-			if a, ok := after[name]; ok && a != attrsBefore[name] {
-				return fw.V(sigBase+"_changed_table_attributes", "%s: attributes of %s were {%s}, are now {%s}%s", what, name, attrsBefore[name], a, e.tail())
-			}
-		}
-		if d := run.DiffSnap(filesBefore, plainFiles(dir)); d != "" {
-			sig := sigBase + "_changed_files"
-			if strings.HasPrefix(f.SK, "create") {
-				sig = sigBase + "_left_or_removed_file"
-			}
-			return fw.V(sig, "%s: files of the directory before -> after: %s%s", what, d, e.tail())
-		}
-		if strings.HasPrefix(f.SK, "create") && f.FK != "file_exists" {
-			for _, cf := range run.ControlFiles(dir) {
-				if strings.Contains(cf, newFile) {
-					return fw.V(sigBase+"_left_lock", "%s: control file %s of the table that was not created remains%s", what, cf, e.tail())
-				}
-			}
-		}
-		return nil
+		return h.compareState(sigBase, what, stBefore, strings.HasPrefix(f.SK, "create"), strings.HasPrefix(f.SK, "create") && f.FK != "file_exists" && f.FK != "if_not_exists_mismatch")
 	}
-
-	// churn: data-neutral statements that allocate many values of every pooled type, so that an
-	// object the failed statement wrongly handed back to the pool is overwritten before the tables are read
-	churn := func() *fw.Violation {
-		stmts := []string{"SELECT 'zz1', 'zz2', 'zz3', 'zz4', 'zz5', 'zz6', 987001, 987002, 987003, 987004, 987005, 98.5, 97.5, 96.5 FROM DUAL;"}
-		for _, t := range c.Tables {
-			stmts = append(stmts, fmt.Sprintf("SELECT v || '~zz', w || '~yy', id + 987000, id * 1.5 FROM %s LIMIT 8;", t.Name))
-		}
-		stmts = append(stmts, "SELECT 'zy1' || 'zy2', 'zy3', 986001 + 1, 986002, 95.5 FROM DUAL;")
-		for _, st := range stmts {
-			if r := e.exec(st); r.Err != nil {
-				return fw.V(sigBase+"_then_select_fails", "%s after the failed statement: %v%s", st, r.Err, e.tail())
-			}
-		}
-		return nil
-	}
+	churn := func() *fw.Violation { return h.churn(sigBase) }
 
 	// ---- the failing statement (enumerating cases: once per failure point, on the same session)
 	evals := 0
@@ -1697,6 +2023,9 @@ func checkOnce(c caseT, limit time.Duration) (fw.Outcome, *fw.Violation) {
 		fp := strings.Join([]string{f.SK, f.FK, pos, tkind, sizeClass(driveN), state}, "/")
 		if f.Shared > 0 {
 			fp += "/shared"
+		}
+		if f.How != "" && f.How != "div0" {
+			fp += "/" + f.How
 		}
 		o.More = append(o.More, fp)
 		o.Fingerprint = fp
@@ -1817,7 +2146,7 @@ func checkOnce(c caseT, limit time.Duration) (fw.Outcome, *fw.Violation) {
 	// ---- ending
 	want := map[string]snapT{}
 	for k, sn := range before {
-		want[k] = sn
+		want[k] = sn.untyped() // from here on the contents are modelled and re-read from files
 	}
 	switch c.Ending {
 	case "rollback":
@@ -2004,7 +2333,17 @@ func checkOnce(c caseT, limit time.Duration) (fw.Outcome, *fw.Violation) {
 			}
 			return o, fw.V(fmt.Sprintf("%s_committed_%s_%s_table", sigBase, role, t.Kind), "%s as written by COMMIT is not the table as it was before the failed statement: %s%s", fn, d, e.tail())
 		}
-		if strings.HasSuffix(fn, ".csv") {
+		if t.Raw != "" && !touched[t.Name] && c.Ending == "commit" && (c.FollowSet == nil || c.FollowSet.Refs[0] != t.Name) {
+			// no successful statement has named this table: COMMIT has nothing to write for it, its text
+			// (which a rewrite would not reproduce) is the one the case wrote
+			if now[fn] != files[fn] {
+				return o, fw.V(sigBase+"_commit_rewrote_untouched_file", "%s was named by the failed statement only, yet COMMIT rewrote it: %q -> %q%s", fn, clipS(files[fn]), clipS(now[fn]), e.tail())
+			}
+			class("untouched_file_bytes_checked")
+		}
+		if strings.HasSuffix(fn, ".csv") && t.Raw != "" {
+			fw.AddExtra("bytes_not_checked:non_canonical_initial_text", 1)
+		} else if strings.HasSuffix(fn, ".csv") {
 			// the bytes: header line and one line per record; every cell here is NULL (empty) or a word
 			// that needs no quoting, so the CSV text is determined
 			if wantBytes, ok := csvBytes(want[t.Name]); ok {
@@ -2082,7 +2421,7 @@ func TestC08EnumerateFailurePoints(t *testing.T) {
 	fw.Run(t, fw.Spec[caseT]{
 		ID: "C08", Name: "enumerate_failure_points", Quick: 1200, Thorough: 24000,
 		Gen: genEnumCase, Check: checkCase,
-		Rule: "same tables, prefix and endings as failed_statement, but the row-bound statement shapes only, and the statement is executed once per failure point on the same session (a failed statement changes nothing, so the next point starts from the same state): K = the id of every row the statement evaluates (tables up to 24 rows; larger tables: rows 0-2, 15-17 around the 16-row polling boundary, both sides of every worker boundary, the quartiles, the last three), or cancellation after N = 0, 1, 2, ... polls until the statement completes. After every execution both tables and the plain files are compared with the state before the first one; the ending (COMMIT / further INSERT + COMMIT / ROLLBACK and re-read by a fresh session) follows the last K. Evaluations = executions of the failing statement; non-trivial and distinct as in failed_statement, one fingerprint per failure point",
+		Rule: "same tables, prefix and endings as failed_statement, but the row-bound statement shapes only, and the statement is executed once per failure point on the same session (a failed statement changes nothing, so the next point starts from the same state): K = the id of every row the statement evaluates (tables up to 24 rows; larger tables: rows 0-2, 15-17 around the 16-row polling boundary, both sides of every worker boundary, the quartiles, the last three), or cancellation after N = 0, 1, 2, ... polls until the statement completes. After every execution both tables and the plain files are compared with the state before the first one; the ending (COMMIT / further INSERT + COMMIT / ROLLBACK and re-read by a fresh session) follows the last K. Evaluations = executions of the failing statement; non-trivial and distinct as in failed_statement, one fingerprint per failure point. Round 5: the eight ways of failing at row K, the join-condition and self-join shapes, the non-canonical CSV texts and the oracles on pending changes and value types of failed_statement apply here as well",
 		Assumptions: []string{
 			"as failed_statement",
 			"a cancellation enumeration ends with the first N at which the statement completes; its tables have changed then and no ending is checked",
@@ -2102,9 +2441,11 @@ func TestC08FailedStatement(t *testing.T) {
 	fw.Run(t, fw.Spec[caseT]{
 		ID: "C08", Name: "failed_statement", Quick: 4000, Thorough: 80000,
 		Gen: genCase, Check: checkCase,
-		Rule: "two tables t1/t2 (file in CSV, TSV, JSON, JSONL or LTSV format, temporary table or table created in the same transaction; 1-340 rows, ~25% of the cases with >=160 rows and cpu 2/4 so that worker goroutines evaluate), a prefix of 0-4 successful INSERT/UPDATE/DELETE/REPLACE/ALTER ADD/DROP/SET <attribute> statements, then ONE statement engineered to fail: UPDATE/DELETE/INSERT..SELECT/REPLACE..SELECT/ALTER ADD DEFAULT/CREATE TABLE AS dividing by (id-K) with K the first/middle/last id, multi-table UPDATE that becomes ambiguous at row K, VALUES lists whose j-th row has the wrong length or fails, unknown fields, missing/duplicate columns, REPLACE key not set, CREATE TABLE over an existing file, a multi-table DELETE/UPDATE whose list of target names holds a name that is not an updatable table of the statement (unknown name, subquery alias, WITH table; before or after valid names), a refused ALTER TABLE ... SET (non-UTF8 ENCODING of a JSON/JSONL table, invalid FORMAT/ENCODING/DELIMITER/DELIMITER_POSITIONS/LINE_BREAK/JSON_ESCAPE value, NULL or non-boolean for HEADER/ENCLOSE_ALL/PRETTY_PRINT, unknown attribute, value expression that fails, temporary table), or a valid statement (single-target UPDATE/DELETE/INSERT/REPLACE/ALTER/CREATE TABLE AS, two-target UPDATE a, b and DELETE a, b over a join) whose context is cancelled after N polls (several N per case). In 60% of the cases the statement names its tables through aliases (t1 a, t2 b, source x) that differ from the table names. Executed statement by statement on one in-process session; oracle: after data-neutral filler SELECTs, SELECT * AND the table-qualified SELECT t.c1, t.c2, ... of both tables and the plain files of the directory are the same before and after; then COMMIT - in 57% of the cases after a further INSERT and, on BOTH tables, an UPDATE and a DELETE of one row (plain and table-qualified names) whose affected counts and effects must match a row model - and a fresh session reads the modelled content from the files, whose bytes must be the modelled CSV text; or ROLLBACK returns to the initial content. After every failed execution the attributes (format, delimiter, positions, encoding, line break, header, enclose-all, JSON escape, pretty print) of every cached table are those from before. Differential no-op oracle for every failure kind: all state-changing statements of the case except the failed one (set-up, prefix, follow-ups, optionally a valid ALTER TABLE ... SET right before COMMIT, COMMIT) are executed again in a fresh directory and both directories must hold the same bytes. Non-trivial = the failure strikes after >=1 row / row value / statement item was evaluated (K not first, j>0, N>1); distinct by (statement kind, failure kind, position class, table kind, size class, clean/dirty/cold)",
+		Rule: "two tables t1/t2 (file in CSV, TSV, JSON, JSONL or LTSV format, temporary table or table created in the same transaction; 1-340 rows, ~25% of the cases with >=160 rows and cpu 2/4 so that worker goroutines evaluate), a prefix of 0-4 successful INSERT/UPDATE/DELETE/REPLACE/ALTER ADD/DROP/SET <attribute> statements, then ONE statement engineered to fail: UPDATE/DELETE/INSERT..SELECT/REPLACE..SELECT/ALTER ADD DEFAULT/CREATE TABLE AS dividing by (id-K) with K the first/middle/last id, multi-table UPDATE that becomes ambiguous at row K, VALUES lists whose j-th row has the wrong length or fails, unknown fields, missing/duplicate columns, REPLACE key not set, CREATE TABLE over an existing file, a multi-table DELETE/UPDATE whose list of target names holds a name that is not an updatable table of the statement (unknown name, subquery alias, WITH table; before or after valid names), a refused ALTER TABLE ... SET (non-UTF8 ENCODING of a JSON/JSONL table, invalid FORMAT/ENCODING/DELIMITER/DELIMITER_POSITIONS/LINE_BREAK/JSON_ESCAPE value, NULL or non-boolean for HEADER/ENCLOSE_ALL/PRETTY_PRINT, unknown attribute, value expression that fails, temporary table), or a valid statement (single-target UPDATE/DELETE/INSERT/REPLACE/ALTER/CREATE TABLE AS, two-target UPDATE a, b and DELETE a, b over a join) whose context is cancelled after N polls (several N per case). In 60% of the cases the statement names its tables through aliases (t1 a, t2 b, source x) that differ from the table names. Executed statement by statement on one in-process session; oracle: after data-neutral filler SELECTs, SELECT * AND the table-qualified SELECT t.c1, t.c2, ... of both tables and the plain files of the directory are the same before and after; then COMMIT - in 57% of the cases after a further INSERT and, on BOTH tables, an UPDATE and a DELETE of one row (plain and table-qualified names) whose affected counts and effects must match a row model - and a fresh session reads the modelled content from the files, whose bytes must be the modelled CSV text; or ROLLBACK returns to the initial content. After every failed execution the attributes (format, delimiter, positions, encoding, line break, header, enclose-all, JSON escape, pretty print) of every cached table are those from before. Differential no-op oracle for every failure kind: all state-changing statements of the case except the failed one (set-up, prefix, follow-ups, optionally a valid ALTER TABLE ... SET right before COMMIT, COMMIT) are executed again in a fresh directory and both directories must hold the same bytes. Round 5: (a) the row-bound failure is produced in one of eight ways (how:*): 1/(id-K), CASE WHEN id = K THEN 1/0, a correlated scalar subquery over DUAL / over either table (also the target itself) / with an aggregate, a scalar subquery that returns one record for every row but K and all records of a table for K (error 'subquery returns too many records'), a user-defined function that TRIGGERs an ERROR for K, a user-defined function that SELECTs from a table and divides; (b) further statement shapes: a FROM clause / sub-select source naming a file that does not exist after (or before) the tables to update were loaded (missing_table), a join condition that fails at row K of the target (div0_join_on; INNER and LEFT JOIN, one or two targets), the target joined with itself under two names with one or two targets (div0_self_join), CREATE TABLE IF NOT EXISTS over an existing file-backed table (on disk, changed or created in the transaction) whose columns differ (if_not_exists_mismatch, with and without AS SELECT), sub-select sources given as inline tables of a WITH clause, the target named by its file name (`t1.csv`) in 20% of the CSV-backed cases, SET values / first DEFAULT of ALTER ADD that are direct field references or values read from tables; (c) a third of the CSV files are written in a text a rewrite would not reproduce (some cells quoted, CRLF, no final line break): a file table that only the failed statement has named must hold exactly the bytes the case wrote after COMMIT (untouched_file_bytes_checked; signature *_commit_rewrote_untouched_file), and the differential comparison then also sees a table that COMMIT wrote although nothing changed it; (d) after every failed execution the runtime information on pending changes (SELECT @#UNCOMMITTED, @#CREATED, @#UPDATED, @#UPDATED_VIEWS) is what it was before (signature *_changed_uncommitted_state); (e) within the session the cells also keep their value types (string/integer/float/...), not only their text. Non-trivial = the failure strikes after >=1 row / row value / statement item was evaluated (K not first, j>0, N>1); distinct by (statement kind, failure kind, position class, table kind, size class, clean/dirty/cold, shared values, way of failing)",
 		Assumptions: []string{
-			"tables are compared by column names, row order, cell text and NULL-ness (not by value type: a CSV round trip turns every value into text)",
+			"tables are compared by column names, row order, cell text and NULL-ness; the value types of the cells are compared only between two reads of the same session with no COMMIT/ROLLBACK and no modelled change in between (a CSV round trip turns every value into text)",
+			"@#LOADED_TABLES is not part of the compared runtime information: a failed statement may have loaded (and keeps cached, for update: locked) the tables it named",
+			"float division by zero is no error in csvq: a row-bound failure over a JSON table whose ids were written as numbers by an earlier COMMIT may not fail (counted as unexpected_success and discarded)",
 			"tables whose attributes a SET statement changed are not re-read by name after COMMIT (the file no longer has the format of its extension); they are covered by the differential comparison",
 			"follow-up statements address single rows by id (ids are unique integers); the committed bytes are compared only when every cell is NULL or a word that needs no quoting (measured otherwise as bytes_not_checked:*)",
 			"lock and temp files of tables the failed statement loaded for update may appear: they belong to the open transaction, not to the statement's effects; litter after the transaction is C11's subject",
@@ -2113,6 +2454,556 @@ func TestC08FailedStatement(t *testing.T) {
 			"ROLLBACK ending: file tables and committed temporary tables must read as initially; tables created in the rolled-back transaction are not examined",
 			"FROM-subqueries over a source table are generated unless avoidFromSubqueryPoisonsFileInfo is set; whatever fails after one is reported under the signature from_subquery_poisons_fileinfo (defect repaired in /repo b1128aa)",
 			"the ambiguous multi-table UPDATE mostly sets DIRECT field references of the other table (string, integer and - through an added column - float typed), ambiguity at the first/middle/last target record; 60% of the VALUES lists (and one UPDATE shape) contain values that are the very objects table cells hold: scalar subqueries over the target or the other table, variables assigned from a cell (VAR :=, SELECT INTO), variables fetched from a cursor; after every failed execution data-neutral SELECTs over DUAL and both tables allocate strings, integers and floats (so a value object wrongly recycled by the failed statement is overwritten) before BOTH tables are read; 35% of the cases run with value.VerifPoison (verif build) where a discarded object shows a sentinel at once",
+		},
+	})
+}
+
+// ---------------------------------------------------------------------
+// failure_sequence: several failing statements of different kinds in one transaction
+
+type stepT struct {
+	Op string `json:"op"`           // ok | fail | commit
+	St *stmtT `json:"st,omitempty"` // ok: a valid data-changing statement
+	F  *failT `json:"f,omitempty"`  // fail: a statement engineered to fail
+}
+
+type seqCaseT struct {
+	Poison bool    `json:"poison,omitempty"`
+	Tables []tblT  `json:"tables"`
+	CPU    int     `json:"cpu"`
+	Cold   bool    `json:"cold"` // a table whose content is known (no successful statement has named it since it was read) is not re-read before a failing statement
+	Steps  []stepT `json:"steps"`
+	Retry  int     `json:"retry,omitempty"` // 1-based index of a failing row-bound step whose corrected form (K := 0, an id no row has) is executed after the last step; 0: none
+	Ending string  `json:"ending"`          // commit | rollback
+}
+
+func genSeqCase(t *rapid.T) seqCaseT {
+	T := genTable(t, "t1", []int{52, 36, 12})
+	B := genTable(t, "t2", []int{70, 22, 8})
+	c := seqCaseT{Tables: []tblT{T.tblT, B.tblT}}
+	if (T.N >= 160 || B.N >= 160) && fw.Pct(t, "cpu_large", 85) {
+		c.CPU = fw.PickU(t, "cpu", []int{2, 4, 4})
+	} else {
+		c.CPU = fw.PickU(t, "cpu", []int{1, 1, 2, 4})
+	}
+	c.Cold = fw.Pct(t, "cold", 50)
+	c.Poison = fw.Pct(t, "poison", 35)
+	n := fw.Range(t, "steps", 4, 9)
+	fails := 0
+	addFail := func(i int) {
+		X, Y := T, B
+		if fw.Pct(t, "fail_on_other", 40) {
+			X, Y = B, T
+		}
+		f := genFail(t, X, Y, genMode{seq: true, step: i})
+		// statements that prepare the failing one and succeed: they change the tables for good
+		var pre []stmtT
+		for _, p := range f.Pre {
+			if p.Kind == "add_float" {
+				g := T
+				if p.Refs[0] == B.Name {
+					g = B
+				}
+				has := false
+				for _, cn := range g.cols {
+					has = has || cn == "fl"
+				}
+				if has {
+					continue
+				}
+				g.cols = append(g.cols, "fl")
+				g.extra = append(g.extra, "fl")
+			}
+			pre = append(pre, p)
+		}
+		f.Pre = pre
+		c.Steps = append(c.Steps, stepT{Op: "fail", F: &f})
+		fails++
+	}
+	for i := 0; i < n; i++ {
+		op := fw.Weighted(t, "step_op", []int{42, 45, 13})
+		if i >= n-2 && fails < 2 {
+			op = 1
+		}
+		switch op {
+		case 0:
+			g := T
+			if fw.Pct(t, "ok_on_other", 40) {
+				g = B
+			}
+			st := genPrefixOf(t, i, g, false)
+			c.Steps = append(c.Steps, stepT{Op: "ok", St: &st})
+		case 1:
+			addFail(i)
+		default:
+			c.Steps = append(c.Steps, stepT{Op: "commit"})
+		}
+	}
+	// the user corrects the last failing statement that was bound to a row and runs it again
+	if fw.Pct(t, "retry", 60) {
+		for i := len(c.Steps) - 1; i >= 0; i-- {
+			if f := c.Steps[i].F; f != nil && retryable(f) {
+				c.Retry = i + 1
+				break
+			}
+		}
+	}
+	c.Ending = []string{"commit", "rollback"}[fw.Weighted(t, "ending", []int{70, 30})]
+	return c
+}
+
+// retryable: the statement fails at the row with id K only, so with K := 0 it is a valid statement. Two targets
+// over a self-join are left out: both copies of the one table are stored, which of them stays is not determined.
+func retryable(f *failT) bool {
+	if f.FK == "div0_join_on" && f.SK == "update_multi" {
+		return false // LEFT JOIN: the rows without a partner make the update of the second table ambiguous
+	}
+	return f.K != 0 && f.FK != "cancel" && strings.Contains(f.SQL, kMark) && !(f.FK == "div0_self_join" && strings.HasSuffix(f.SK, "_multi"))
+}
+
+func checkSeqCase(c seqCaseT) (o fw.Outcome, v *fw.Violation) {
+	for _, limit := range []time.Duration{2 * time.Minute, 8 * time.Minute} {
+		var h *hung
+		func() {
+			defer func() {
+				if p := recover(); p != nil {
+					if hp, ok := p.(hung); ok {
+						h = &hp
+						return
+					}
+					panic(p)
+				}
+			}()
+			o, v = checkSeqOnce(c, limit)
+		}()
+		if h == nil {
+			if v != nil && v.Sig != "HARNESS" {
+				for _, st := range c.Steps {
+					if st.F != nil && strings.Contains(st.F.SQL, fromSubqueryMark) && strings.Contains(v.Msg, "does not exist") {
+						v.Msg = v.Sig + ": " + v.Msg
+						v.Sig = "from_subquery_poisons_fileinfo"
+						break
+					}
+				}
+			}
+			return o, v
+		}
+		if limit > 2*time.Minute {
+			return fw.Outcome{}, fw.V("statement_does_not_return", "%s did not return within %v, also on an isolated second run", h.stmt, limit)
+		}
+		fw.AddExtra("watchdog_retries", 1)
+	}
+	return o, v
+}
+
+// setupStatements: temporary tables (committed: they have a restore point), then tables created in this transaction.
+func setupStatements(tables []tblT) []string {
+	var setup []string
+	for _, t := range tables {
+		if t.Kind == "temp" {
+			setup = append(setup, fmt.Sprintf("DECLARE %s VIEW (id, v, w);", t.Name), fmt.Sprintf("INSERT INTO %s VALUES %s;", t.Name, valuesOf(t)))
+		}
+	}
+	setup = append(setup, "COMMIT;")
+	for _, t := range tables {
+		if t.Kind == "created" {
+			setup = append(setup, fmt.Sprintf("CREATE TABLE `%s.csv` (id, v, w);", t.Name), fmt.Sprintf("INSERT INTO %s VALUES %s;", t.Name, valuesOf(t)))
+		}
+	}
+	return setup
+}
+
+// readAll reads every table; a table that cannot be read is noted with the class of its error.
+func (h *sessH) readAll() (map[string]snapT, map[string]string) {
+	snaps, errs := map[string]snapT{}, map[string]string{}
+	for _, t := range h.tables {
+		sn, err := h.e.read(t.Name)
+		if err != nil {
+			errs[t.Name] = run.ErrClass(err)
+			continue
+		}
+		snaps[t.Name] = sn
+	}
+	return snaps, errs
+}
+
+func checkSeqOnce(c seqCaseT, limit time.Duration) (fw.Outcome, *fw.Violation) {
+	o := fw.Outcome{}
+	class := func(s string) { o.Classes = append(o.Classes, s) }
+	if len(c.Tables) != 2 {
+		return o, fw.Harness("a case has two tables")
+	}
+	for _, t := range c.Tables {
+		if t.N < 1 {
+			return o, fw.Harness("table %s without rows", t.Name)
+		}
+	}
+	dir := filepath.Join(fw.WorkDir(), fmt.Sprintf("c08s-%d", atomic.AddInt64(&caseSeq, 1)))
+	if err := os.MkdirAll(dir, 0755); err != nil {
+		return o, fw.Harness("%v", err)
+	}
+	defer os.RemoveAll(dir)
+	files := map[string]string{}
+	for _, t := range c.Tables {
+		if t.Kind == "file" {
+			files[fileName(t)] = contentOf(t)
+			if t.Fmt != "" {
+				class("file_format:" + t.Fmt)
+			}
+			if t.Raw != "" {
+				class("file_text:" + t.Raw)
+			}
+		}
+		class("table:" + t.Kind)
+	}
+	if err := run.WriteFiles(dir, files); err != nil {
+		return o, fw.Harness("%v", err)
+	}
+	if c.Poison {
+		defer func(old bool) { value.VerifPoison = old }(value.VerifPoison)
+		value.VerifPoison = true
+		class("poison_mode")
+	}
+	pc := newPollCtx()
+	s, err := run.NewSess(run.Opt{Dir: dir, CPU: c.CPU, Ctx: pc})
+	if err != nil {
+		return o, fw.Harness("%v", err)
+	}
+	defer s.Close()
+	e := &env{s: s, limit: limit}
+	h := &sessH{e: e, s: s, dir: dir, tables: c.Tables}
+
+	// chain: every statement that succeeded, with the number of records it reported as affected
+	type linkT struct {
+		sql      string
+		affected int
+	}
+	var chain []linkT
+	// runTwin executes the chain in a fresh directory and returns its session (nil and the failing statement if one fails)
+	var dir2 string
+	twinN := 0
+	runTwin := func(upTo int) (*sessH, string, error, *fw.Violation) {
+		twinN++
+		dir2 = fmt.Sprintf("%s-twin%d", dir, twinN)
+		if err := os.MkdirAll(dir2, 0755); err != nil {
+			return nil, "", nil, fw.Harness("%v", err)
+		}
+		if err := run.WriteFiles(dir2, files); err != nil {
+			return nil, "", nil, fw.Harness("%v", err)
+		}
+		s3, err := run.NewSess(run.Opt{Dir: dir2, CPU: c.CPU})
+		if err != nil {
+			return nil, "", nil, fw.Harness("%v", err)
+		}
+		h3 := &sessH{e: &env{s: s3, limit: limit}, s: s3, dir: dir2, tables: c.Tables}
+		for i := 0; i < upTo; i++ {
+			r := h3.e.exec(chain[i].sql)
+			if r.Err != nil {
+				return h3, chain[i].sql, r.Err, nil
+			}
+			if r.Affected != chain[i].affected {
+				return h3, "", nil, fw.V("seq_affected_count_differs_after_failed_statements", "%s reported %d affected records in the transaction with the failed statements and %d in the same transaction without them%s\n  without:%s", chain[i].sql, chain[i].affected, r.Affected, e.tail(), h3.e.tail())
+			}
+		}
+		return h3, "", nil, nil
+	}
+	defer func() {
+		for i := 1; i <= twinN; i++ {
+			os.RemoveAll(fmt.Sprintf("%s-twin%d", dir, i))
+		}
+	}()
+
+	lastFail := "none"
+	failsDone := 0
+	// okExec runs a statement that must succeed; after a failed statement a failure is a violation unless
+	// the same statements without the failed ones fail in the same way (then the generator is wrong)
+	okExec := func(sql, what string) *fw.Violation {
+		r := e.exec(sql)
+		if r.Err == nil {
+			chain = append(chain, linkT{sql, r.Affected})
+			return nil
+		}
+		if failsDone == 0 {
+			return fw.Harness("%s failed: %v%s", what, r.Err, e.tail())
+		}
+		chain = append(chain, linkT{sql, 0})
+		h3, at, terr, v := runTwin(len(chain))
+		if h3 != nil {
+			defer h3.s.Close()
+		}
+		if v != nil {
+			return v
+		}
+		if terr != nil && at == sql {
+			return fw.Harness("%s failed also without the failed statements: %v%s", what, terr, e.tail())
+		}
+		return fw.V("seq_valid_statement_fails_after_failed_"+lastFail, "%s fails (%v) after failed statements, and succeeds in the same transaction without them%s", sql, r.Err, e.tail())
+	}
+
+	for _, st := range setupStatements(c.Tables) {
+		if v := okExec(st, "set-up statement"); v != nil {
+			return o, v
+		}
+	}
+	// known: contents that need no re-reading (no successful statement has named the table since)
+	known := map[string]snapT{}
+	for _, t := range c.Tables {
+		known[t.Name] = initialSnap(t)
+	}
+	var path []string
+	evals := 0
+	okSince := false // a successful statement or COMMIT since the last failed statement
+	mixed := false   // >= 2 failed statements with something successful between them
+	for si, step := range c.Steps {
+		switch step.Op {
+		case "ok":
+			if step.St == nil {
+				return o, fw.Harness("step %d without statement", si)
+			}
+			if v := okExec(step.St.SQL, "valid statement"); v != nil {
+				return o, v
+			}
+			for _, n := range step.St.Refs {
+				delete(known, n)
+			}
+			path = append(path, "ok:"+step.St.Kind)
+			class("ok:" + step.St.Kind)
+			okSince = true
+		case "commit":
+			if v := okExec("COMMIT;", "COMMIT"); v != nil {
+				if v.Sig != "HARNESS" {
+					v.Sig = "failed_" + lastFail + "_then_commit_fails"
+				}
+				return o, v
+			}
+			for _, t := range c.Tables {
+				if sn, ok := known[t.Name]; ok && t.Kind != "temp" {
+					known[t.Name] = sn.untyped() // the file is read again: its values are text from now on
+				}
+			}
+			path = append(path, "commit")
+			class("mid_commit")
+			okSince = true
+		case "fail":
+			f := step.F
+			if f == nil {
+				return o, fw.Harness("step %d without statement", si)
+			}
+			for _, p := range f.Pre {
+				if v := okExec(p.SQL, "statement preparing a failing one"); v != nil {
+					return o, v
+				}
+				if p.Kind == "add_float" {
+					for _, n := range p.Refs {
+						delete(known, n)
+					}
+				}
+			}
+			before := map[string]snapT{}
+			for _, t := range c.Tables {
+				if sn, ok := known[t.Name]; ok && c.Cold {
+					before[t.Name] = sn
+					continue
+				}
+				sn, err := e.read(t.Name)
+				if err != nil {
+					if failsDone == 0 {
+						return o, fw.Harness("reading %s before the statement failed: %v%s", t.Name, err, e.tail())
+					}
+					return o, fw.V("failed_"+lastFail+"_table_unreadable", "SELECT * FROM %s fails before step %d: %v%s", t.Name, si, err, e.tail())
+				}
+				before[t.Name], known[t.Name] = sn, sn
+			}
+			stBefore, err := h.state()
+			if err != nil {
+				return o, fw.Harness("reading the runtime information failed: %v%s", err, e.tail())
+			}
+			sigBase := "failed_" + f.SK + "_" + f.FK
+			isCreate := strings.HasPrefix(f.SK, "create")
+			after := func(what string) *fw.Violation {
+				if v := h.churn(sigBase); v != nil {
+					return v
+				}
+				if v := h.compare(sigBase, f.Target, what, before); v != nil {
+					return v
+				}
+				return h.compareState(sigBase, what, stBefore, isCreate, isCreate && f.FK != "file_exists" && f.FK != "if_not_exists_mismatch")
+			}
+			class("stmt:" + f.SK + "/" + f.FK)
+			if f.How != "" {
+				class("how:" + f.How)
+			}
+			done := 0
+			if f.FK == "cancel" {
+				for _, n := range f.Ns {
+					pc.Arm(n)
+					r := e.exec(f.SQL)
+					polls, _ := pc.Reset()
+					e.trace[len(e.trace)-1] += fmt.Sprintf("   [context cancelled after %d polls; %d polls made]", n, polls)
+					if r.ParseErr {
+						return o, fw.Harness("the statement does not parse: %v: %s", r.Err, f.SQL)
+					}
+					if r.Err == nil {
+						// the statement has completed and changed the tables in a way the generator has not planned: the case ends here
+						class("ended_by_completed_cancel")
+						o.Evals = evals
+						if evals == 0 {
+							return fw.Outcome{Discard: true}, nil
+						}
+						return o, nil
+					}
+					done++
+					if v := after(fmt.Sprintf("step %d: after %s was cancelled at poll %d (%v)", si, f.SQL, n, r.Err)); v != nil {
+						return o, v
+					}
+				}
+			} else {
+				sql := strings.ReplaceAll(f.SQL, kMark, fmt.Sprint(f.K))
+				r := e.exec(sql)
+				if r.ParseErr {
+					return o, fw.Harness("the statement does not parse: %v: %s", r.Err, sql)
+				}
+				if r.Err == nil {
+					fw.AddExtra("unexpected_success:"+f.SK+"/"+f.FK+"/"+f.How, 1)
+					return fw.Outcome{Discard: true}, nil
+				}
+				done++
+				if v := after(fmt.Sprintf("step %d: after the failed %s (%v)", si, sql, r.Err)); v != nil {
+					return o, v
+				}
+				if got := errNumber(r.Err); got != f.Errno {
+					fw.AddExtra(fmt.Sprintf("other_error:%s/%s:%d", f.SK, f.FK, got), 1)
+					class("other_error")
+				}
+			}
+			if done > 0 {
+				if failsDone > 0 && okSince {
+					mixed = true
+				}
+				failsDone++
+				evals += done
+				okSince = false
+				lastFail = f.SK + "_" + f.FK
+				path = append(path, "fail:"+f.SK+"/"+f.FK)
+			}
+		default:
+			return o, fw.Harness("unknown step %q", step.Op)
+		}
+	}
+	o.Evals = evals
+	if failsDone == 0 {
+		return fw.Outcome{Discard: true}, nil
+	}
+	class(fmt.Sprintf("failed_statements:%d", failsDone))
+	if c.Retry > 0 {
+		if c.Retry > len(c.Steps) || c.Steps[c.Retry-1].F == nil || !retryable(c.Steps[c.Retry-1].F) {
+			return o, fw.Harness("retry of step %d, which is not a row-bound failing statement", c.Retry)
+		}
+		f := c.Steps[c.Retry-1].F
+		sql := strings.ReplaceAll(f.SQL, kMark, "0")
+		if v := okExec(sql, "corrected statement"); v != nil {
+			if v.Sig == "HARNESS" {
+				// it is not valid for a reason of its own: no subject of the property
+				fw.AddExtra("corrected_statement_fails_also_without_failed_statements:"+f.SK+"/"+f.FK, 1)
+				return fw.Outcome{Discard: true}, nil
+			}
+			v.Sig = "seq_corrected_" + f.SK + "_fails_after_it_failed"
+			return o, v
+		}
+		path = append(path, "retry:"+f.SK+"/"+f.FK)
+		class("retry:" + f.SK)
+	}
+
+	// ---- the transaction as the session sees it at its end, the ending, and what is on disk afterwards
+	final, finalErrs := h.readAll()
+	endStmt := "COMMIT;"
+	if c.Ending == "rollback" {
+		endStmt = "ROLLBACK;"
+	}
+	class("ending:" + c.Ending)
+	if r := e.exec(endStmt); r.Err != nil {
+		// a violation unless the transaction without the failed statements ends the same way (e.g. COMMIT refuses
+		// an LTSV table a corrected DELETE has left without records: 'data empty')
+		h3, at, terr, v := runTwin(len(chain))
+		if h3 != nil {
+			defer h3.s.Close()
+		}
+		if v != nil {
+			return o, v
+		}
+		if terr != nil {
+			return o, fw.Harness("%s fails in the run without the failed statements: %v", at, terr)
+		}
+		if r3 := h3.e.exec(endStmt); r3.Err != nil && run.ErrClass(r3.Err) == run.ErrClass(r.Err) {
+			fw.AddExtra("ending_fails_also_without_failed_statements:"+run.ErrClass(r.Err), 1)
+			return fw.Outcome{Discard: true}, nil
+		}
+		return o, fw.V("failed_"+lastFail+"_then_"+c.Ending+"_fails", "%s after the failed statements: %v (it succeeds in the same transaction without them)%s", endStmt, r.Err, e.tail())
+	}
+	post, postErrs := h.readAll()
+	s.Close()
+	now := plainFiles(dir)
+
+	h3, at, terr, v := runTwin(len(chain))
+	if h3 != nil {
+		defer h3.s.Close()
+	}
+	if v != nil {
+		return o, v
+	}
+	if terr != nil {
+		return o, fw.V("seq_chain_fails_without_failed_statements", "the statements of the case without the failed ones, in a fresh directory: %s fails (%v) although it succeeded among the failed statements%s\n  without:%s", at, terr, e.tail(), h3.e.tail())
+	}
+	cmp := func(what string, got map[string]snapT, gotErrs map[string]string, want map[string]snapT, wantErrs map[string]string) *fw.Violation {
+		for _, t := range c.Tables {
+			if gotErrs[t.Name] != wantErrs[t.Name] {
+				return fw.V("seq_table_readable_differs_from_run_without_failed_statements", "%s: SELECT * FROM %s gives error %q with the failed statements and %q without them%s\n  without:%s", what, t.Name, gotErrs[t.Name], wantErrs[t.Name], e.tail(), h3.e.tail())
+			}
+			if _, ok := wantErrs[t.Name]; ok {
+				continue
+			}
+			if d := diffSnap(want[t.Name], got[t.Name]); d != "" {
+				return fw.V(fmt.Sprintf("seq_%s_table_differs_from_run_without_failed_statements", t.Kind), "%s: %s (%s table) without -> with the failed statements: %s%s\n  without:%s", what, t.Name, t.Kind, d, e.tail(), h3.e.tail())
+			}
+		}
+		return nil
+	}
+	twinFinal, twinFinalErrs := h3.readAll()
+	if v := cmp("at the end of the transaction", final, finalErrs, twinFinal, twinFinalErrs); v != nil {
+		return o, v
+	}
+	if r := h3.e.exec(endStmt); r.Err != nil {
+		return o, fw.Harness("%s fails in the run without the failed statements: %v%s", endStmt, r.Err, h3.e.tail())
+	}
+	twinPost, twinPostErrs := h3.readAll()
+	if v := cmp("after "+endStmt, post, postErrs, twinPost, twinPostErrs); v != nil {
+		return o, v
+	}
+	h3.s.Close()
+	if d := run.DiffSnap(plainFiles(dir2), now); d != "" {
+		return o, fw.V("seq_files_differ_from_run_without_failed_statements", "files after %s without -> with the failed statements: %s%s", endStmt, d, e.tail())
+	}
+	class("differential_no_op_checked")
+	if failsDone >= 2 {
+		fp := strings.Join(path, ">") + "|" + c.Ending + "|" + c.Tables[0].Kind + "," + c.Tables[1].Kind
+		if mixed {
+			class("failures_with_successes_between")
+		}
+		o.Fingerprint = fp
+	}
+	return o, nil
+}
+
+func TestC08FailureSequence(t *testing.T) {
+	fw.Run(t, fw.Spec[seqCaseT]{
+		ID: "C08", Name: "failure_sequence", Quick: 1400, Thorough: 30000,
+		Gen: genSeqCase, Check: checkSeqCase,
+		Rule: "fault sequences: the two tables of failed_statement and ONE transaction of 4-9 steps drawn from {valid INSERT/UPDATE/DELETE/REPLACE/ALTER ADD/DROP on either table, a statement engineered to fail (every kind of failed_statement except those that change a table attribute; on either table as target; with its own variables, cursors and functions), COMMIT in the middle}, at least two failing statements, ending COMMIT or ROLLBACK. Around EVERY failing statement: both tables (text, NULL-ness and value types; SELECT * and table-qualified SELECT), attributes of the cached tables, plain files and the runtime information on pending changes (@#UNCOMMITTED, @#CREATED, @#UPDATED, @#UPDATED_VIEWS) are the same before and after (filler SELECTs in between). A valid statement that fails after a failed one is a violation unless it also fails in the run without the failed statements. At the end a twin session executes only the statements that succeeded (fresh directory): every statement reports the same number of affected records, both tables read the same (text and value types) before and after the ending statement, and both directories hold the same bytes. Evaluations = executions of failing statements; non-trivial = at least two failing statements were executed; distinct by the sequence of step kinds (ok:<kind> / fail:<statement>/<failure> / commit), the ending and the table kinds",
+		Assumptions: []string{
+			"as failed_statement for the single failing statement",
+			"no step changes a table attribute (ALTER TABLE ... SET): after a COMMIT in the middle the tables are read again by name",
+			"a cancelled statement that completes (needs fewer polls than N) ends the case there: its effect is not in the generator's model (measured as ended_by_completed_cancel); a case whose failing statement unexpectedly succeeds is discarded",
+			"with cold = true a table is not re-read before a failing statement while its content is known (read before, no successful statement has named it since), so that failing statements also meet tables the session has not loaded (at the start, after a COMMIT)",
 		},
 	})
 }
